@@ -16,7 +16,7 @@ NOVAL = -1
 def close(a, b):
     if a is None or b is None:
         return a is None and b is None
-    return bool(np.all(np.abs(np.asarray(a, dtype=float) - b) <= 1e-12 * abs(b)))
+    return bool(np.all(np.abs(np.asarray(a, dtype=float) - b) <= 1e-11 * abs(b)))
 
 
 class Sys:
@@ -80,7 +80,19 @@ def replay(S, beh, sabotage=False):
             elif act == "SetE":
                 o.set_eccentricity(S.sig(o, host, moons, label[1], label[2]), S.e_vals[label[3]])
             elif act == "SetA":
-                o.set_semi_major_axis(S.sig(o, host, moons, label[1], label[2]), S.a_vals[label[3]])
+                from TidalPy.utilities.conversions import semi_a2orbital_motion, rads2days
+                sg = S.sig(o, host, moons, label[1], label[2])
+                via = label[4] if len(label) > 4 else "a"
+                a_new = S.a_vals[label[3]]
+                # the triple is given as a, n or P; n and P are derived here with the TRUE masses of the pair (host + the moon the
+                # signature resolves to), so the orbit must store a_new whatever the form
+                tgt = st["raiser"] if label[1] == "host" else label[1]
+                n_new = float(semi_a2orbital_motion(a_new, host.mass, moons[tgt].mass))
+                arg = {"a": ("semi_major_axis", a_new), "n": ("orbital_frequency", n_new), "P": ("orbital_period", float(rads2days(n_new)))}[via.replace("state_", "")]
+                if via.startswith("state_"):
+                    o.set_state(sg, **{arg[0]: arg[1]})
+                else:
+                    getattr(o, "set_" + arg[0])(sg, arg[1])
             elif act == "ClearSpecific":
                 o.clear_state(clear_all=False, clear_specific=S.sig(o, host, moons, label[1], label[2]))
             elif act == "ClearAll":
@@ -116,8 +128,14 @@ def replay(S, beh, sabotage=False):
                             problems.append(["sma", "get_semi_major_axis(%s of %s) = %r, OrbitRegistry.tla %r" % (kind, m, ga, wa)])
                     if not close(moons[m].eccentricity, we) or not close(moons[m].semi_major_axis, wa):
                         problems.append(["world_property", "%s.eccentricity / semi_major_axis = %r / %r, OrbitRegistry.tla %r / %r" % (m, moons[m].eccentricity, moons[m].semi_major_axis, we, wa)])
-                    if (ga is None) != (o.get_orbital_frequency(moons[m]) is None):
-                        problems.append(["kepler", "%s: semi-major axis %r but orbital frequency %r" % (m, ga, o.get_orbital_frequency(moons[m]))])
+                    gn, gp = o.get_orbital_frequency(moons[m]), o.get_orbital_period(moons[m])
+                    if (ga is None) != (gn is None) or (ga is None) != (gp is None):
+                        problems.append(["kepler", "%s: semi-major axis %r but orbital frequency %r, period %r" % (m, ga, gn, gp)])
+                    elif ga is not None:
+                        from TidalPy.constants import G
+                        k3 = float(gn) ** 2 * float(ga) ** 3 / (G * (host.mass + moons[m].mass))
+                        if abs(k3 - 1.0) > 1e-11 or abs(float(gp) * 86400.0 * float(gn) / (2 * np.pi) - 1.0) > 1e-11:
+                            problems.append(["kepler", "%s: n^2 a^3 / (G (M_host + m)) = %.15g, P n / 2 pi = %.15g" % (m, k3, float(gp) * 86400.0 * float(gn) / (2 * np.pi))])
                 if st["raiser"] != "none":
                     rm = st["raiser"]
                     we = None if st["ecc"][rm] == NOVAL else S.e_vals[st["ecc"][rm]]
